@@ -143,19 +143,20 @@ def adversarial(rng, tier):
             "/*é*/", "/*\n*/", "--", "---", "----", "-- \n-- ", "--\r\n1", "--\n", "- -", "-\n-"]
     # empty text and whitespace only
     out += ["", " ", "\n", "\r\n", "\t \n", " ", " 　 "]
-    # very long tokens (few tokens per text: the model's slicing is linear in the offset)
+    # very long tokens (few tokens per text: the model's slicing is linear in the offset, its decoder recursive)
     n_long = 100000 if tier == "quick" else 300000
-    for ch in ["a", "é", "中", "\U0001f600", "1", "_"]:
-        out.append(ch * n_long)
-    out += ["'" + "x" * n_long + "'", "'" + "é" * n_long, "\"" + "中" * n_long + "\"", "--" + " c" * (n_long // 2), "1." + "0" * n_long,
-            "." * 2000, "(" * 3000, "''" * 1500, "a " * 1500, "\n" * 3000, "<" * 2001, "-" * 2001, "--" + "-" * 2001 + "\n" + "-" * 3]
+    n_mid = n_long // 5
+    out += ["1" * n_long, "_" * n_long, "'" + "x" * n_long + "'", "--" + " c" * (n_long // 2), "1." + "0" * n_long, "'" + "é" * n_mid, "\"" + "中" * n_mid + "\""]
+    for ch in ["a", "é", "中", "\U0001f600"]:
+        out.append(ch * n_mid)
+    out += ["." * 2000, "(" * 2000, "''" * 1000, "a " * 500, "\n" * 2000, "<" * 2001, "-" * 2001, "--" + "-" * 2001 + "\n" + "-" * 3]
     for _ in range(200 if tier == "quick" else 2000):
         out.append("".join(rng.choice(MULTI + DELIMS) for _ in range(1 + rng.below(12))))
     return out
 
 
 def build_cases(rng, tier):
-    n = {"quick": 5200, "thorough": 60000}[tier]
+    n = {"quick": 3000, "thorough": 60000}[tier]
     cases = []
     valid = [g_sql(rng) for _ in range(n)]
     cases += [("sql", s) for s in valid]
@@ -570,3 +571,16 @@ def run(ctx):
                           "the tokenizer theorems hold for every pair of tables is_alphabetic / is_numeric; the correspondence run uses the tables of the std the harness is built with"]
     out["wall"] = time.time() - t0
     return out
+
+
+def replay(ctx, payload):
+    rp = payload.get("replay", payload)
+    gv, _ = common.build_harness(bin="gv_lex")
+    gmodel = common.build_ocaml("lexer")
+    _, hdr = class_tables(gv)
+    text = bytes.fromhex(rp["hex"]).decode("utf-8")
+    if rp.get("kind") == "expr":
+        print(run_both_expr(gv, gmodel, hdr, [text]))
+    else:
+        print(run_both(gv, gmodel, hdr, [text]))
+    return 0
